@@ -17,7 +17,8 @@ META = {
     'level': 'model_checking',
     'technique': 'system-call-granular exhaustive interleaving of real writer processes on a real file (serialising ptrace executor) + per-size trace of the append call pattern',
     'text': 'Every record size in the bound is traced: exactly one write on an O_APPEND, non-truncating descriptor carrying the whole record + newline. All interleavings of 2 (quick) / 3 (thorough) writers at '
-            'system-call granularity are executed for each call pattern and at each pattern boundary; the file must always be old content + a permutation of whole records.',
+            'system-call granularity are executed for each call pattern and at each pattern boundary; the file must always be old content + a permutation of whole records.'
+            ' The blocking mode of the descriptor is followed through open flags and fcntl and judged at write time.',
     'note': 'Trusted: one write(2)/writev(2) on an O_APPEND descriptor of a regular local file is atomic with respect to other appends (POSIX/Linux). Writers are processes; threads of one process are covered by C09\'s schedules.',
 }
 O_APPEND, O_TRUNC, O_NONBLOCK = 0o2000, 0o1000, 0o4000
